@@ -17,9 +17,9 @@ from mc.ref import ips
 ID = "C12"
 LEVEL = "exploration"
 LEVEL_TEXT = ("Complete enumeration of the option lattice format {ips,sfc} x mapping {low,low2,high,not given} x copier header {off,on} x "
-              "defines {none, one, two (the second in terms of the first), two with value zero} (64 points) x every generated program valid at that point (position moves into "
+              "defines {none, one, two (the second in terms of the first), two with value zero, a dotted name} (80 points) x every generated program valid at that point (position moves into "
               "several banks and mirrors, @= relocation, labels in blocks/scopes/macros/loops, defines used in data, .if and .for "
-              "bounds, overlapping and bank-crossing blocks, a 65552-byte block that IPS must split, .include/.incbin) through Program.assemble, Program.assemble_as_patch, "
+              "bounds, overlapping and bank-crossing blocks, a 65552-byte block that IPS must split, blocks of one repeated byte, .include/.incbin), each output path alternately absent and holding a longer stale file, through Program.assemble, Program.assemble_as_patch, "
               "cli_main in-process and, for every lattice point, a real `python -m a816.cli` process. Output files are read back "
               "(strict IPS reader / raw SFC bytes) and compared with the in-memory API's blocks under the same ROM type and with the "
               "defines prepended as constants; the symbol file is compared with get_all_labels(). No unit test calls these entry points.")
@@ -37,7 +37,8 @@ FORMATS = ["ips", "sfc"]
 MAPPINGS = ["low", "low2", "high", None]
 HEADERS = [False, True]
 # the last configuration defines BAR in terms of FOO (defines are installed in command-line order)
-DEFINES = [(), (("FOO", "5"),), (("FOO", "5"), ("BAR", "FOO-2")), (("FOO", "0"), ("BAR", "4-4"))]
+# the fifth one uses a dotted name (the form a named scope exports), a legal symbol name
+DEFINES = [(), (("FOO", "5"),), (("FOO", "5"), ("BAR", "FOO-2")), (("FOO", "0"), ("BAR", "4-4")), (("cfg.depth", "3"), ("FOO", "2"))]
 
 
 def define_values(defines):
@@ -55,7 +56,7 @@ BASE[None] = BASE["low"]
 
 
 def bound(tier):
-    return ("64 lattice points (odd ones additionally with --verbose --dump-symbols and an output path in a subdirectory) x 7-9 programs x 3 in-process entry points; 64 lattice points x " + ("all" if tier == "thorough" else "2") +
+    return ("80 lattice points (odd ones additionally with --verbose --dump-symbols and an output path in a subdirectory) x 7-9 programs x 3 in-process entry points; output paths alternately fresh and holding a longer stale file; 80 lattice points x " + ("all" if tier == "thorough" else "2") +
             " programs as real CLI processes")
 
 
@@ -87,7 +88,13 @@ def programs(mapping, defines):
         "files": [("org", N(b["a"] + 0x10)), ("include", "inc.s", [("label", "fromfile"), ("data", "dw", [S("fromfile")])]), ("incbin", "blob.bin"),
                   ("data", "dl", [S("blob_bin"), S("blob_bin__size")])],
     }
+    # blocks of one repeated byte (a writer may want to run-length encode them)
+    out["uniform"] = [("org", N(b["a"]))] + [("ins", "nop", "", None, None)] * 12 + [("org", N(b["a"] + 0x100)), ("data", "db", [N(0)] * 16),
+                      ("org", N(b["a"] + 0x200)), ("data", "db", [N(0xFF)] * 20), ("data", "db", [N(0)] * 20), ("org", N(b["b"])), ("data", "dw", [N(0x7E7E)] * 9)]
     names = {d[0] for d in defines}
+    if "cfg.depth" in names:
+        out["use-dotted"] = [("org", N(b["a"])), ("data", "dw", [S("cfg.depth")]), ("if", S("cfg.depth"), [("data", "db", [N(0x11)])], None),
+                             ("for", "ii", N(0), S("cfg.depth"), [("data", "db", [("b", "+", S("ii"), S("FOO"))])])]
     if "FOO" in names:
         out["use-foo"] = [("org", N(b["a"])), ("data", "dw", [S("FOO")]), ("if", S("FOO"), [("data", "db", [N(0x11)])], [("data", "db", [N(0x22)])]),
                           ("data", "dl", [("b", "+", S("FOO"), N(0x100))])]
@@ -115,6 +122,18 @@ def describe(case, res):
     f, m, h, d = lattice()[case[1]]
     return {"case": list(case), "format": f, "mapping": m, "copier_header": h, "defines": [f"{k}={v}" for k, v in d], "outcome": res.get("outcome"),
             "example": res.get("example")}
+
+
+STALE = bytes([0xA5]) * 0x48000
+
+
+def prepare_output(path, stale):
+    """The output path either does not exist or holds a longer, unrelated file from an earlier build."""
+    if os.path.exists(path):
+        os.remove(path)
+    if stale:
+        with open(path, "wb") as f:
+            f.write(STALE)
 
 
 def in_memory(prog, mapping, defines):
@@ -202,7 +221,8 @@ def run_inproc(i):
     example = None
     nontrivial = (fmt, mapping, header, defines) != ("ips", "low", False, ())
     mtag = f"fmt={fmt},map={mapping},defines={'yes' if defines else 'no'}"
-    for name, prog in programs(mapping, defines).items():
+    for pi, (name, prog) in enumerate(programs(mapping, defines).items()):
+        stale = bool((pi + i) % 2)
         mem, v, src = in_memory(prog, mapping, defines)
         if v.status == "fail":
             viol.append({"key": "frontend:harness-program-not-valid", "msg": f"{name}: reference verdict {v.status} {v.reason}"})
@@ -224,9 +244,8 @@ def run_inproc(i):
         impl.write_files(files)
         # --- entry point 1: file API (only without defines: they are a CLI option)
         if not defines:
-            for f_ in ("out.bin", "out.sym"):
-                if os.path.exists(f_):
-                    os.remove(f_)
+            prepare_output("out.bin", stale)
+            prepare_output("out.sym", stale)
             p = Program()
             try:
                 if fmt == "ips":
@@ -272,8 +291,7 @@ def run_inproc(i):
             os.remove("out2.bin")
         os.makedirs("outdir", exist_ok=True)
         out2 = "outdir/out2.bin" if i % 2 else "out2.bin"
-        if os.path.exists(out2):
-            os.remove(out2)
+        prepare_output(out2, stale)
         argv = ["x816"] + cli_args(fmt, mapping, header, defines, "prog.s", out2, extras=bool(i % 2))
         saved = sys.argv
         sys.argv = argv
@@ -315,8 +333,7 @@ def run_subproc(i, pick, tier="quick"):
         files.update(render.files_of(prog))
         files["prog.s"] = render.source(prog)
         impl.write_files(files)
-        if os.path.exists("out3.bin"):
-            os.remove("out3.bin")
+        prepare_output("out3.bin", bool((i + len(name)) % 2))
         env = dict(os.environ, PYTHONPATH=impl.REPO, PYTHONDONTWRITEBYTECODE="1")
         cmd = [sys.executable, "-m", "a816.cli"] + cli_args(fmt, mapping, header, defines, "prog.s", "out3.bin", extras=bool(i % 2))
         try:
